@@ -1,0 +1,108 @@
+//go:build verif
+// +build verif
+
+// Contracts for package parser, read by /verif/engine (govc). Comment-only file: it adds no code.
+// Syntax: see /verif/DESIGN.md section 2.2. Keys are go/ssa function names relative to the package.
+
+package parser
+
+// ---------------------------------------------------------------------------
+// Scanner object invariant (C15: positions in range; C01: memory safety)
+//
+//@ spec fun srcOK(s *Scanner) bool = s != nil && 0 <= s.lineHead && s.lineHead <= s.offset && s.offset <= len(s.src) && 0 <= s.line
+//@ spec fun noNL(s *Scanner) bool = forall k int :: s.lineHead <= k && k < s.offset ==> s.src[k] != 10
+//@ spec fun headNL(s *Scanner) bool = s.lineHead == 0 || s.src[s.lineHead-1] == 10
+//@ spec fun scanInv(s *Scanner) bool = srcOK(s) && noNL(s) && headNL(s) && s.line == nl(elems(s.src), off(s.src), s.offset)
+//
+// nl(a, o, k): number of '\n' among a[o .. o+k)  (uninterpreted; unfolding axioms below, monotonicity proved by induction)
+//@ spec fun nl(a Arr, o int, k int) int
+//@ axiom nl-zero: forall a Arr, o int :: nl(a, o, 0) == 0
+//@ axiom nl-step: forall a Arr, o int, k int :: k >= 0 ==> nl(a, o, k+1) == nl(a, o, k) + ite(select(a, o+k) == 10, 1, 0)
+//@ lemma [C15] nl-bound induction k: forall a Arr, o int, k int :: k >= 0 ==> 0 <= nl(a, o, k) && nl(a, o, k) <= k
+//@ lemma [C15] nl-mono induction d: forall a Arr, o int, k int, d int :: k >= 0 && d >= 0 ==> nl(a, o, k) <= nl(a, o, k+d)
+
+//@ func isLetter
+//@ props C15
+//@ ensures ch < 0 ==> !result
+//@ ensures ch == 95 ==> result
+//@ ensures result ==> ch != 10 && ch != 32 && ch != 9 && ch != 13 && !(48 <= ch && ch <= 57) && ch != 34 && ch != 39 && ch != 96
+
+//@ func isDigit
+//@ props C15
+//@ ensures result == (48 <= ch && ch <= 57)
+
+//@ func isHex
+//@ props C15
+//@ ensures result == ((48 <= ch && ch <= 57) || (97 <= ch && ch <= 102) || (65 <= ch && ch <= 70))
+
+//@ func isBinary
+//@ props C15
+//@ ensures result == (ch == 48 || ch == 49)
+
+//@ func isEOL
+//@ props C15
+//@ ensures result == (ch == 10 || ch == -1)
+
+//@ func isBlank
+//@ props C15
+//@ ensures result == (ch == 32 || ch == 9 || ch == 13)
+
+//@ func (*Scanner).reachEOF
+//@ props C15
+//@ requires s != nil
+//@ ensures result == (len(s.src) <= s.offset)
+
+//@ func (*Scanner).peek
+//@ props C15
+//@ requires s != nil && 0 <= s.offset
+//@ ensures s.offset >= len(s.src) ==> result == -1
+//@ ensures s.offset < len(s.src) ==> result == s.src[s.offset]
+
+//@ func (*Scanner).peekPlus
+//@ props C15
+//@ requires s != nil && 0 <= s.offset && s.offset <= len(s.src) && 0 <= i && i <= 4
+//@ ensures s.offset + i >= len(s.src) ==> result == -1
+//@ ensures s.offset + i < len(s.src) ==> result == s.src[s.offset+i]
+
+//@ func (*Scanner).next
+//@ props C15
+//@ requires scanInv(s)
+//@ modifies s.offset, s.lineHead, s.line
+//@ ensures inv: scanInv(s)
+//@ ensures adv: old(s.offset) < len(s.src) ==> s.offset == old(s.offset) + 1
+//@ ensures eof: old(s.offset) >= len(s.src) ==> s.offset == old(s.offset) && s.lineHead == old(s.lineHead) && s.line == old(s.line)
+//@ ensures head: s.lineHead == old(s.lineHead) || s.lineHead == s.offset
+//@ use nl-step(elems(s.src), off(s.src), old(s.offset))
+//@ use nl-bound(elems(s.src), off(s.src), old(s.offset))
+
+//@ func (*Scanner).back
+//@ props C15
+//@ requires scanInv(s)
+//@ requires nonl: s.offset > s.lineHead
+//@ modifies s.offset
+//@ ensures inv: scanInv(s)
+//@ ensures s.offset == old(s.offset) - 1
+//@ use nl-step(elems(s.src), off(s.src), old(s.offset) - 1)
+
+//@ func (*Scanner).current
+//@ props C15
+//@ requires s != nil
+//@ ensures result == s.offset
+
+//@ func (*Scanner).pos
+//@ props C15
+//@ requires scanInv(s)
+//@ ensures line: result.Line == s.line + 1 && 1 <= result.Line
+//@ ensures col: result.Column == s.offset - s.lineHead + 1 && 1 <= result.Column && result.Column <= len(s.src) - s.lineHead + 1
+//@ ensures lines: result.Line <= nl(elems(s.src), off(s.src), len(s.src)) + 1
+//@ use nl-bound(elems(s.src), off(s.src), s.offset)
+//@ use nl-mono(elems(s.src), off(s.src), s.offset, len(s.src) - s.offset)
+
+//@ func (*Scanner).skipBlank
+//@ props C15
+//@ requires scanInv(s)
+//@ modifies s.offset, s.lineHead, s.line
+//@ ensures inv: scanInv(s)
+//@ ensures s.offset >= old(s.offset)
+//@ loop 0 invariant scanInv(s) && s.offset >= old(s.offset)
+//@ loop 0 decreases len(s.src) - s.offset
